@@ -242,6 +242,30 @@ func c18Units(ctx *core.Ctx) []core.Unit {
 			}
 		}
 	}})
+	us = append(us, core.Unit{Name: "DivideOnDomain at all 256 indices in sequence, twice, on one PrecomputedWeights", Run: func(ctx *core.Ctx, r *core.Result) {
+		needRef()
+		pw := conf().PrecomputedWeights
+		f := polyAlphabet(ctx.Seed)[13]
+		fv := frsFromBig(f.V)
+		want := make([]string, 256)
+		for pass := 0; pass < 2; pass++ {
+			for k := 0; k < 256; k++ {
+				if want[k] == "" {
+					want[k] = frsDigest(frsFromBig(ref.QuotientEval(f.V, k)))
+				}
+				var q []fr.Element
+				in := fmt.Sprintf("pass %d of 0..255 in sequence, index %d, f=%s", pass+1, k, f.Name)
+				if !guard(r, "c18.panic", "ipa.PrecomputedWeights.DivideOnDomain", in, func() { q = pw.DivideOnDomain(uint8(k), fv) }) {
+					return
+				}
+				r.Evals++
+				r.Nontrivial++
+				if frsDigest(q) != want[k] {
+					vio(r, "c18.divide", "ipa.PrecomputedWeights.DivideOnDomain", in, "the quotient (f - f(k))/(X - k) on the domain", "a different vector")
+				}
+			}
+		}
+	}})
 	us = append(us, core.Unit{Name: "ComputeBarycentricCoefficients outside the domain", Run: func(ctx *core.Ctx, r *core.Result) {
 		needRef()
 		pw := conf().PrecomputedWeights
